@@ -347,5 +347,8 @@ if __name__ == "__main__":
                         ps.print_stats(0.1)  # MAGIC percent to print
                         print(stream.getvalue())
                         raise keybr
+                    finally:
+                        # one profiler per job, only one may be active at a time
+                        pr.disable()
 
     logger.info("process density... complete")
